@@ -74,7 +74,10 @@ def c01(tier):
              # long histories: thousands of operations on one daemon (tables that have grown and emptied again, ids and counters far
              # from their start, memory that has been through many hands)
              + mk("bus", 12 if q else 200, s + 11, "default", n_ops=2500 if q else 12000, opts=dict(weights=w))
-             + mk("bus", 8 if q else 100, s + 12, "tiny", n_ops=2500 if q else 12000, opts=dict(weights=w)))
+             + mk("bus", 8 if q else 100, s + 12, "tiny", n_ops=2500 if q else 12000, opts=dict(weights=w))
+             # dense runs of occupied slots in the path index (elements far behind their home bucket) with a subscriber watching
+             + mk("cluster", 24 if q else 800, s + 13, "default", cluster=(40, 2, "low")) + mk("cluster", 16 if q else 500, s + 14, "default", cluster=(48, 3, "end"))
+             + mk("cluster", 8 if q else 300, s + 15, "roomy", cluster=(40, 2, "wrap")))
     # "nothing is delivered for a fetch that was refused / unfetched" also when the refusal is a failed allocation
     fres, fcases = fetch_allocfail_cases(tier, s)
     res = fres + run_cases(cases + fcases)
@@ -94,7 +97,9 @@ def c02(tier):
              # "every reachable daemon state" includes states in which deliveries to other peers fail
              + mk("faulty", 300 if q else 8000, s + 2, "smallbuf", n_ops=70, weights=dict(route=30, reply=12, change=25, advance=6))
              # the requester itself reads slowly: responses to its single requests and batches pile up; a refused response ends the connection
-             + mk("slowreq", 60 if q else 2500, s + 3, "default") + mk("slowreq", 60 if q else 2500, s + 4, "smallbuf"))
+             + mk("slowreq", 60 if q else 2500, s + 3, "default") + mk("slowreq", 60 if q else 2500, s + 4, "smallbuf")
+             # "exactly one response" also when the call that disarms a routed request's timer fails
+             + mk("deadline-cancelfault", 60 if q else 2000, s + 5, "default"))
     res = run_cases(cases)
     return report("C02", "exploration", res,
                   "grammar-generated JSON-RPC requests (all 12 methods + unknown, params valid / missing / mistyped / hostile, ids of every JSON type incl. "
@@ -120,7 +125,9 @@ def c03(tier):
              # long histories: many hundreds of routed requests through one daemon (request counter far from its start, routing
              # tables filled and emptied many times)
              + mk("bus", 12 if q else 200, s + 5, "default", n_ops=2500 if q else 12000, opts=dict(weights=w, hostile_owner=0.1))
-             + mk("bus", 6 if q else 100, s + 6, "tiny", n_ops=2500 if q else 12000, opts=dict(weights=w, hostile_owner=0.1)))
+             + mk("bus", 6 if q else 100, s + 6, "tiny", n_ops=2500 if q else 12000, opts=dict(weights=w, hostile_owner=0.1))
+             # "the owner's result or error payload unchanged if the owner answers before the deadline" - also when disarming the timer fails
+             + mk("deadline-cancelfault", 60 if q else 2000, s + 7, "default"))
     res = run_cases(cases)
     return report("C03", "exploration", res,
                   "random histories (80..300 operations, and a few of 2 500 - thorough: 12 000 - operations with many hundreds of routed requests through one daemon) of set/call from several callers to several owners with owner replies (result, error, forged id, duplicated), clock advances up "
@@ -240,14 +247,16 @@ def c14(tier):
              + mk("deadline-grid", 40 if q else 1500, s + 5, "odd", n=40) + mk("deadline-race", 60 if q else 2500, s + 6, "odd", rounds=6)
              # late replies for callers that have gone since, while a successor connection (released memory handed out again at once
              # in half of the runs) waits for its own answers
-             + mk("deadline-successor", 60 if q else 2500, s + 7, "default", reuse=True) + mk("deadline-successor", 40 if q else 1500, s + 8, "default", reuse=False))
+             + mk("deadline-successor", 60 if q else 2500, s + 7, "default", reuse=True) + mk("deadline-successor", 40 if q else 1500, s + 8, "default", reuse=False)
+             # the call that disarms the deadline timer fails when the reply arrives / the caller or owner leaves
+             + mk("deadline-cancelfault", 80 if q else 3000, s + 9, "default") + mk("deadline-cancelfault", 20 if q else 800, s + 10, "tiny"))
     res = run_cases(cases)
     return report("C14", "exploration", res,
                   "timeout grid (absent, 0, 1e-4, 0.000999, 0.001, 0.0015, ..., 1e30, string, bool, null, negative, object) x {request, element, both, neither}: the "
                   "value handed to timerfd_settime is compared with floor(t*1e9) by precedence request > element > default; the virtual clock is stepped to "
                   "deadline-1ns (no answer allowed), to the deadline (answer due), late replies must have no effect; race batches built explicitly: expiry and "
                   "{owner reply, caller FIN/RST, owner FIN/RST} harvested in ONE epoll batch in both orders (batch sizes 1, 2, 10, 64): exactly one answer, no "
-                  "sanitizer report; 'successor' histories: the owner answers requests whose caller timed out or left, while a new connection of the same kind that numbers its requests the same way waits for its own answers (with and without immediate reuse of released memory); distinct = (timeout types, outcome) and (race kind, order) signatures",
+                  "sanitizer report; 'successor' histories: the owner answers requests whose caller timed out or left, while a new connection of the same kind that numbers its requests the same way waits for its own answers (with and without immediate reuse of released memory); 'cancelfault' histories: the timerfd_settime call that disarms a request's timer fails (EINVAL / EBADF / ENOMEM) when the owner's reply arrives or a party leaves - still exactly one answer, the owner's if it replied in time, nothing more when the deadline passes; distinct = (timeout types, outcome) and (race kind, order) signatures",
                   t0, tier, SIM_ASSUME, min_events={"race_batches": 200, "timer_expiries": 200, "timers_armed": 1000})
 
 
@@ -314,7 +323,10 @@ def c07(tier):
              + mk("reclaim", 100 if q else 3000, s + 4, "tiny", mode="inject", n_ops=50)
              + (mk("reclaim", 100 if q else 3000, s + 5, "lowheap", mode="lowheap", n_ops=120) if LOWHEAP_IN_C07 else [])
              + mk("hostile", 150 if q else 5000, s + 6, "default", n_ops=40, baseline=True)
-             + mk("faulty", 150 if q else 5000, s + 9, "smallbuf", n_ops=70, weights=dict(route=30, reply=10, fault=6)))
+             + mk("faulty", 150 if q else 5000, s + 9, "smallbuf", n_ops=70, weights=dict(route=30, reply=10, fault=6))
+             # with a credential file: repeated logins, password changes, updates of the file that run into a full disk / an I/O
+             # error (descriptors of files the daemon opened itself are part of the baseline)
+             + mk("access", 80 if q else 3000, s + 12, "default", n_ops=50) + mk("passwd-filefault", 60 if q else 2000, s + 13, "default"))
     mid = mk("reclaim", 250 if q else 8000, s + 7, "default", mode="bus", n_ops=60) + mk("reclaim", 100 if q else 3000, s + 8, "default", mode="hostile", n_ops=40)
     for i, c in enumerate(mid):
         c["params"] = dict(c["params"], sigterm_mid=(c["seed"] * 7 + i) % 45)
@@ -357,8 +369,10 @@ def ns_allocfail_cases(tier, s):
 def fetch_allocfail_cases(tier, s):
     """one fetch / unfetch with allocation number n failing, for every n: the subscription exists completely or not at all, as answered"""
     q = tier == "quick"
-    variants = [(op, t) for op in ("fetch", "unfetch") for t in (("raw",) if q else ("raw", "ws"))]
-    counting = [dict(kind="allocfail-fetch", seed=s * 23 + i, config="default", params=dict(op=op, transport=t)) for i, (op, t) in enumerate(variants)]
+    variants = [(op, t, 0) for op in ("fetch", "unfetch") for t in (("raw",) if q else ("raw", "ws"))]
+    # ... with 4 / 8 / 16 other subscribers in place (the new fetch makes the elements' subscriber tables grow for the first, second, third time)
+    variants += [("fetch", "raw", n) for n in ((4, 8) if q else (3, 4, 7, 8, 15, 16))] + [("unfetch", "raw", 8)]
+    counting = [dict(kind="allocfail-fetch", seed=s * 23 + i, config="default", params=dict(op=op, transport=t, others=n)) for i, (op, t, n) in enumerate(variants)]
     cres = run_cases(counting)
     cases = []
     for r in cres:
